@@ -48,6 +48,10 @@ CHECKS = {
    technique="the Rust source emitted by pest_generator for each grammar is compiled in a driver crate; its MIR and the MIR of pest_vm (running the optimized rules of the same grammar) are executed symbolically on the same fully symbolic input inside one path, both through the real pest::state(); z3 decides the joint path conditions and the results are compared",
    text="For each grammar of the family (divergence-targeted shapes: every modifier on WHITESPACE and COMMENT, user rules named like non-keyword built-ins, stack operations, predicates, skip patterns, node tags with grammar-extras; plus the seeded family; 150 quick / 1200 thorough per feature set) and start rules a, b, on every valid UTF-8 input of 0..N bytes (N=3/5): identical token pairs and tags on success, identical error position and identical sets of expected/unexpected rules on failure. Both sides are the real code (no reference model); every joint path is replayed on the compiled VM and on the compiled generated parser.",
    note="Trusted: generator output taken as text from pest_generator::derive_parser (what the derive macro compiles); MIR = compiled code; executor summaries (validated by the double native replay); z3. Rule lists are compared as sets (the back-ends order them differently by construction). Unicode property rules are not in the family."),
+ "C18": dict(level="model_checking", design="§5 C18", engine="M",
+   technique="symbolic execution of the MIR of the parser generated from json.pest (and of the pest runtime) on fully symbolic UTF-8 input and on templates with symbolic holes; every path compared with an RFC 8259 recogniser evaluated on the same path condition; z3 decides every branch",
+   text="Every valid UTF-8 input of 0..N bytes (N=4 quick, 6 thorough; all bytes symbolic) and 41 templates (arrays, objects, members, strings with escapes and \\uXXXX, numbers with fraction/exponent, literals, surrounding whitespace, near-misses such as leading zeros, bare signs, trailing commas, control characters, truncated literals) with 1-4 symbolic ASCII holes: the JSON parser accepts on a path iff the RFC 8259 recogniser does, and on acceptance the whole token tree (json, value, object, pair, array, string, number, bool, null, EOI with exact byte spans) is identical. Every path is replayed on the compiled generated parser.",
+   note="The parser is regenerated from grammars/src/grammars/json.pest with the working tree's generator (the derive macro in pest_grammars expands to the same tokens). Trusted: the 120-line recogniser in lib/props/c18.py, executor + summaries (validated per path), z3. Deeper documents than the bound only via templates."),
 }
 
 NOT_APPLICABLE = {
